@@ -263,14 +263,18 @@ Definition infra_system (cls : list closer) (all : list point) : system :=
    the caller never walks away while the protocol lives).  That the reply
    is only accepted when such a call is pending is the state machine's job
    (C11 handler_sound + C16 conformance); it is an explicit assumption signal. *)
-Definition never_abandons (ps : list point) (f ch : string) : bool :=
+Definition never_abandons (ws : list closer) (ps : list point) (f ch : string) : bool :=
   let rs := filter (fun p => String.eqb (p_file p) f && String.eqb (suffix_of (p_chan p)) (suffix_of ch)
                              && (String.eqb (p_op p) "recv" || String.eqb (p_op p) "range")
                              && negb (String.eqb (p_ctx p) "handler")) ps in
   negb (match rs with [] => true | _ => false end)
-  && forallb (fun p => forallb (fun a => negb (mem (a_class a) ["ctx"; "timer"; "default"])) (p_alts p)) rs.
-Definition solicited (ps : list point) : solf := fun f ctx op ch cl =>
-  String.eqb ctx "handler" && String.eqb op "send" && String.eqb cl "data" && never_abandons ps f ch.
+  && forallb (fun p => forallb (fun a => negb (mem (a_class a) ["ctx"; "timer"; "default"])) (p_alts p)) rs
+  (* ... and no receiving function has a return path that leaves while a reply is outstanding
+     (generated `walkaways`: a return between two reply receives that is not the shutdown /
+     closed-channel / terminating-message branch) *)
+  && forallb (fun p => negb (existsb (fun w => String.eqb (c_file w) f && String.eqb (c_func w) (p_func p)) ws)) rs.
+Definition solicited (ws : list closer) (ps : list point) : solf := fun f ctx op ch cl =>
+  String.eqb ctx "handler" && String.eqb op "send" && String.eqb cl "data" && never_abandons ws ps f ch.
 
 (* signals available once the connection is closed by Close():
    c.doneChan is closed; timers fire; non-blocking operations;
